@@ -152,7 +152,7 @@ struct Case {
     std::vector<bool> crashed;
     std::vector<bool> pool;  // free slice ids
     std::string log;
-    int cur = -1;            // thread running (for the cleaner's event); -1 = probe
+    verif_sched::Scheduler *sched = nullptr; // tells which thread is running (for the cleaner's event)
     bool quiet = false;
 };
 
@@ -174,7 +174,7 @@ static std::string tmode(const Case &c, int t)
 
 void Cleaner::noteFreeMapSlice(const Ipc::StoreMapSliceId sliceId)
 {
-    ev(*c, std::to_string(c->cur) + "~" + std::to_string(sliceId));
+    ev(*c, std::to_string(c->sched->current()) + "~" + std::to_string(sliceId));
     if (sliceId >= 0 && sliceId < c->N)
         c->pool[sliceId] = true;
 }
@@ -202,7 +202,6 @@ static void client(Case &c, int t)
     try {
         for (;;) {
             verif_sched::point(); // the use step
-            c.cur = t;
             // next legal operation
             char o = 0, p = 0;
             while (ip < script.size()) {
@@ -237,11 +236,9 @@ static void client(Case &c, int t)
                     a = map.openForWritingAt(fileno, false);
                 } else {
                     fileno = p - '0';
-                    if (fileno < 0 || fileno >= c.N) throw std::runtime_error("bad anchor");
                     a = map.openForWritingAt(fileno);
                 }
-                c.cur = t;
-                if (a) {
+                    if (a) {
                     if (o != 'P')
                         a->setKey(k.raw());
                     c.mode[t] = W; c.anchor[t] = fileno; c.last[t] = -1;
@@ -302,7 +299,6 @@ static void client(Case &c, int t)
             case 'f': map.closeForReadingAndFreeIdle(f); c.mode[t] = I; r += "."; break;
             case 'F': {
                 const int g = p - '0';
-                if (g < 0 || g >= c.N) throw std::runtime_error("bad anchor");
                 const bool res = map.freeEntry(g);
                 r += res ? "+" : "-";
                 break;
@@ -315,7 +311,6 @@ static void client(Case &c, int t)
                 break;
             }
             }
-            c.cur = t;
             ev(c, r);
         }
     } catch (const AssertFailed &) {
@@ -345,6 +340,7 @@ int main()
                 } else {
                     Case c;
                     c.N = N;
+                    c.sched = &sched;
                     const SBuf path(("m" + std::to_string(++serial)).c_str());
                     Ipc::StoreMap::Owner *owner = Ipc::StoreMap::Init(path, N);
                     std::unique_ptr<TestMap> mapHolder(new TestMap(path));
@@ -392,7 +388,6 @@ int main()
                     // probe, single-threaded (no scheduler: operations execute directly)
                     o << " | p=";
                     c.quiet = true;
-                    c.cur = -1;
                     for (int i = 0; i < N; ++i) {
                         try {
                             if (map.openForWritingAt(i)) {
